@@ -461,12 +461,12 @@ def judge(case: dict[str, Any], run: dict[str, Any], res: Result) -> bool:
         ec_algs = sorted({k["alg"] for k in case["ksks"] if key_of(k["key"]).kind == "ec" and present_on_token(case, k)})
         rsa_part = lambda c: Counter({e: n for e, n in c.items() if e[4] not in (13, 14)})  # noqa: E731
         if rsa_part(got_c) != rsa_part(want) or {e[:3] for e in got_c} != {e[:3] for e in want}:
-            res.violation("exported KeyDigest set differs from the configured keys present on the token (RSA part / ids / validity)", case, key="entries", got=sorted(got_c), want=sorted(want))
+            res.violation("exported KeyDigest set differs from the configured keys present on the token (RSA part / ids / validity)", case, key="entries", got=sorted(got_c, key=repr), want=sorted(want, key=repr))
         elif got_c == want_prefixed:
             for a in ec_algs:
-                res.violation(WHAT_DS, case, key=f"ecdsa:alg{a}", got=sorted(e for e in got_c if e[4] == a), want=sorted(e for e in want if e[4] == a), note="the exported value is the DS of the SEC 1 point WITH its 0x04 octet (DESIGN §5 F4)")
+                res.violation(WHAT_DS, case, key=f"ecdsa:alg{a}", got=sorted((e for e in got_c if e[4] == a), key=repr), want=sorted((e for e in want if e[4] == a), key=repr), note="the exported value is the DS of the SEC 1 point WITH its 0x04 octet (DESIGN §5 F4)")
         else:
-            res.violation(WHAT_DS, case, key="ecdsa:other", got=sorted(got_c), want=sorted(want))
+            res.violation(WHAT_DS, case, key="ecdsa:other", got=sorted(got_c, key=repr), want=sorted(want, key=repr))
         bad = True
     # ordered by validFrom
     keys = [tuple(int(x) for x in _VF.search(f'validFrom="{g[1]}"').groups()) if _VF.search(f'validFrom="{g[1]}"') else None for g in got]
@@ -557,7 +557,7 @@ def replay(obj: dict[str, Any]) -> Any:
     r = Result("C18")
     run_ = run_case(case)
     judge(case, run_, r)
-    out: dict[str, Any] = {"case": case, "observed": {"impl": run_["impl"], "document": run_["doc"]}, "expected": sorted(expected_entries(case)[0]), "violations": [{"what": x["what"], "key": x.get("key")} for x in r.violations]}
+    out: dict[str, Any] = {"case": case, "observed": {"impl": run_["impl"], "document": run_["doc"]}, "expected": sorted(expected_entries(case)[0], key=repr), "violations": [{"what": x["what"], "key": x.get("key")} for x in r.violations]}
     try:
         o = lib.run_driver([run_["line"]], exe=DRIVER)[0]
         out["model"] = o["result"]
